@@ -206,22 +206,23 @@ class BytesMixin:
                 else:
                     raise Unsupported("bytes equality with inner symbolic segments")
             else:
-                # one constant-length, the other symbolic-length (must be last): compare lengths and content
-                if x[0] == "sym":
-                    x, y, sa, sb = y, x, sb, sa
-                # now x int, y sym
-                if len(sb) != 1:
-                    raise Unsupported("bytes equality: unaligned symbolic segment")
-                total = sum(g[2] for g in sa if g[0] == "int")
-                if any(g[0] != "int" for g in sa):
-                    raise Unsupported("bytes equality: unaligned symbolic segments")
-                cs.append(y[3] == self.intval(total))
-                off = 0
-                for g in sa:
-                    elems = [z3.Select(y[1], z3.IntVal(y[2] + off + k)) for k in range(g[2])]
-                    cs.append(g[1] == (z3.Concat(*elems) if len(elems) > 1 else elems[0]))
-                    off += g[2]
-                sa, sb = [], []
+                # one constant-length segment against a symbolic-length one: peel the constant part off the
+                # symbolic segment (its length must cover it) and go on with the remainder
+                swapped = x[0] == "sym"
+                if swapped:
+                    x, y = y, x
+                n = x[2]
+                _, arr, off, ln = y
+                cs.append(ln >= self.intval(n))
+                elems = [z3.Select(arr, z3.IntVal(off + k)) for k in range(n)]
+                cs.append(x[1] == (z3.Concat(*elems) if len(elems) > 1 else elems[0]))
+                rem = ("sym", arr, off + n, ln - self.intval(n))
+                if swapped:
+                    sb.pop(0)
+                    sa[0] = rem
+                else:
+                    sa.pop(0)
+                    sb[0] = rem
         for rest in (sa, sb):
             for g in rest:
                 if g[0] == "int":
